@@ -164,6 +164,22 @@ def register(reg, prop="C20"):
     reg.ghost_funcs["FC"] = lambda I, d, delta: fc(d, delta)
     reg.ghost_funcs["horner"] = lambda I, *a: horner(*a)
     reg.ghost_funcs["R"] = lambda I, v: R(v)
+
+    def nonincreasing(I, x):
+        """ghost: exists k with x[k+1] <= x[k]  (a Boolean with a Skolem witness for one direction
+        and a lazily instantiated universal for the other)"""
+        ctx = I.ctx
+        memo = ctx.ghost.setdefault("nonincreasing", {})
+        if x.tid in memo:
+            return memo[x.tid]
+        n = x.shape[0]
+        b = ctx.fresh("nonincreasing", "bool")
+        w = ctx.fresh("w", "int")
+        ctx.assume(z3.Implies(b, z3.And(w >= 0, w < to_z3(n) - 1, R(x.fn(w + 1)) <= R(x.fn(w)))))
+        I.add_forall(ForallV(lambda k: z3.Implies(R(x.fn(ops.add(k, 1))) <= R(x.fn(k)), b), 0, ops.sub(n, 1), "k"))
+        memo[x.tid] = b
+        return b
+    reg.ghost_funcs["nonincreasing"] = nonincreasing
     for f in ("_weighted_harmonic_mean", "_endpoint_slope", "_limit_endpoint"):
         reg.policies[f"{MOD}:{f}"] = "inline"
 
@@ -237,20 +253,28 @@ def register(reg, prop="C20"):
             # call site / derived context: the constructed object's fields are fresh values
             # constrained only by the ensures clauses
             s.fields["_coeffs"] = reg.sym_tensor(I, I.ctx.fresh_name("coeffs"), (ops.sub(n, 1), 4))
-            s.fields["x"] = reg.sym_tensor(I, I.ctx.fresh_name("self.x"), (n,))
-            s.fields["y"] = reg.sym_tensor(I, I.ctx.fresh_name("self.y"), (n,))
+            # element-wise equal to the arguments (ensures below): tensors are values here, so the
+            # fields are the argument tensors themselves (PCHIP1D never writes to them)
+            s.fields["x"] = x
+            s.fields["y"] = y
         s.fields["dg"] = T.LamTensor((n,), lambda i: spec_d(I, hh, dd, i))
         if "result" not in fr.locals:
             return              # pre-state call (ghost names for the requires only)
+        # abstract predicate valid(self): "self is a PCHIP1D built by __init__", i.e. everything
+        # __init__ ensures (Hermite representation of (x, y, standard derivatives), sorted knots).
+        # PCHIP1D has no method that writes to self after construction (checked syntactically by
+        # the property's frame scan), so valid(self) is stable and implies __call__'s requires.
+        s.fields["valid"] = True
+        if "result" in fr.locals:
+            I.ctx.ghost.setdefault("pchip_objs", []).append((s, x, y))
+        if not (fr.locals.get("__derived__") or fr.locals.get("__frame__")):
+            return              # call site: callers see the abstract face only
         # instances of lemma spec_d_is_fc (proved separately for all reals): at every index read
         # (interior pair i-1,i) and at both ends
         m = hh.shape[0]
         I.add_forall(ForallV(lambda i: use_spec_fc(hh.fn(ops.sub(i, 1)), hh.fn(i), dd.fn(ops.sub(i, 1)), dd.fn(i)),
                              1, m, "i"))
         I.session.note("lemma instances used: spec_d_is_fc (proved in this run)")
-        # ghost trace of constructions (used by callers' postconditions, e.g. C22)
-        if "result" in fr.locals:
-            I.ctx.ghost.setdefault("pchip_objs", []).append((s, x, y))
         I.ctx.assume(z3.Implies(to_z3(m) >= 2, z3.And(
             use_spec_fc(hh.fn(0), hh.fn(1), dd.fn(0), dd.fn(1)),
             use_spec_fc(hh.fn(ops.sub(m, 1)), hh.fn(ops.sub(m, 2)), dd.fn(ops.sub(m, 1)), dd.fn(ops.sub(m, 2))))))
@@ -260,7 +284,10 @@ def register(reg, prop="C20"):
         params={"self": hd, "x": hd, "y": hd}, setup=setup_init, post_setup=ghost_init,
         policies={f"{MOD}:PCHIP1D._validate_xy": "inline"},
         modifies=[],
-        raises={"ValueError": None, "TypeError": None},
+        raises={"ValueError": "len(x) < 2 or len(x) != len(y) or nonincreasing(x)"},
+        # what callers see (opaque): a valid interpolant of exactly these data
+        abs_ensures=["len(x) >= 2", "self.valid", "len(self.x) == len(x) and len(self.y) == len(x)",
+                     "forall(lambda k: x[k + 1] > x[k], 0, len(x) - 1)"],
         ensures=[
             # construction succeeds only on >= 2 strictly increasing knots
             "len(x) >= 2",
@@ -310,13 +337,12 @@ def register(reg, prop="C20"):
 
             def idx(I2, j):
                 v = f(to_z3(j))
-                I2.saw_index(v)
-                I2.saw_index(v + 1)
+                I2.saw_read(f.name(), (j,))
                 return v
             fr.locals["idx"] = idx
         if fr.locals.get("result") is not None:
             I.ctx.ghost.setdefault("pchip_calls", []).append((s, fr.locals["xq"], fr.locals["result"]))
-        if fr.locals.get("result") is not None and code is None:
+        if fr.locals.get("result") is not None and fr.locals.get("__derived__"):
             # instances of lemma hermite_shape (proved separately for all reals) for the interval
             # of each query point -- used by the derived clauses, not by the code proof
             xq, xs, ys, dg = fr.locals["xq"], s.fields["x"], s.fields["y"], s.fields["dg"]
@@ -378,6 +404,13 @@ def register(reg, prop="C20"):
             "forall(lambda j: implies(xq[j] == self.x[idx(j)], result[j] == self.y[idx(j)]), 0, len(xq))",
         ],
     ))
+    # what callers see (opaque): the object must be a valid interpolant (established only by
+    # __init__, stable because PCHIP1D is never written after construction; valid(self) implies the
+    # requires above -- the knot-extremes clause via the induction lemma `sorted_transitive`);
+    # they learn the interval facts and the shape-preservation clauses, not the coefficients.
+    cc = reg.contracts[f"{MOD}:PCHIP1D.__call__"]
+    cc.abs_requires = ["self.valid"]
+    cc.abs_ensures = cc.ensures[:5] + cc.derived
 
 
 def register_c30(reg, prop="C30"):
